@@ -129,6 +129,17 @@ class Acc(object):
         self.viol = []
         self.extra = {}
         self.samples = []
+        self.sigs = {}
+
+    def report(self, sig, it, mk):
+        """record at most one violation per signature and item (the rest is counted): the expected
+        divergences hit hundreds of thousands of cases and each record costs a description."""
+        c = self.sigs.get(sig, 0)
+        self.sigs[sig] = c + 1
+        if c == 0:
+            self.viol.append(V(sig, it, *mk()))
+        else:
+            self.count('further_cases:' + sig)
 
     def count(self, k, d=1):
         self.extra[k] = self.extra.get(k, 0) + d
@@ -164,26 +175,25 @@ class Acc(object):
                 if both_raise_ok or (isinstance(ea, REFUSALS) and isinstance(eb, REFUSALS)):
                     return None
                 k = kind('raise', None) if callable(kind) else kind
-                lab = label() if callable(label) else label
-                self.viol.append(V('C13/%s/%s/%s:both-raise-%s' % (level, func, k, type(ea).__name__), it,
-                                   '%s: pyclifford raised %s (%s), torchclifford raised %s (%s); the property requires a value here' % (
-                                       lab, type(ea).__name__, str(ea)[:120], type(eb).__name__, str(eb)[:120])))
+                self.report('C13/%s/%s/%s:both-raise-%s' % (level, func, k, type(ea).__name__), it, lambda: (
+                    '%s: pyclifford raised %s (%s), torchclifford raised %s (%s); the property requires a value here' % (
+                        label() if callable(label) else label, type(ea).__name__, str(ea)[:120], type(eb).__name__, str(eb)[:120]),))
                 return None
             self.count('pyclifford_raises_no_reference')
             self.count('pyclifford_raises:%s/%s' % (func, type(ea).__name__))
             return None
         if eb is not None:
             k = kind('raise', None) if callable(kind) else kind
-            lab = label() if callable(label) else label
-            self.viol.append(V('C13/%s/%s/%s:torch-raises-%s' % (level, func, k, type(eb).__name__), it,
-                               '%s: pyclifford returns a value, torchclifford raises %s: %s' % (lab, type(eb).__name__, str(eb)[:200]),
-                               'raises %s' % type(eb).__name__, fjson(a)))
+            self.report('C13/%s/%s/%s:torch-raises-%s' % (level, func, k, type(eb).__name__), it, lambda: (
+                '%s: pyclifford returns a value, torchclifford raises %s: %s' % (
+                    label() if callable(label) else label, type(eb).__name__, str(eb)[:200]),
+                'raises %s' % type(eb).__name__, fjson(a)))
             return None
         d = fdiff(a, b)
         if d is not None:
             k = kind(d[0], d[1]) if callable(kind) else kind
-            lab = label() if callable(label) else label
-            self.viol.append(V('C13/%s/%s/%s' % (level, func, k), it, '%s: %s' % (lab, d[2]), fjson(b), fjson(a)))
+            self.report('C13/%s/%s/%s' % (level, func, k), it, lambda: (
+                '%s: %s' % (label() if callable(label) else label, d[2]), fjson(b), fjson(a)))
         return a
 
     def out(self):
@@ -331,13 +341,13 @@ def fn_k_lists(items):
 
 
 def fn_k_combine(items):
-    """item = [N, i1]: pauli_combine.  N=1: all ordered triples of (string, phase) with first string
+    """item = [N, i1, p1]: pauli_combine.  N=1: all ordered triples of (string, phase) with first string
     fixed x all 8 selection rows; N=2: all 64 x 64 ordered pairs x 4 selection rows."""
     tu, pu = TM()['tu'], lib.pu
     outs = []
     for item in items:
-        (N, i1), sel = split(item, 2)
-        acc = Acc([N, i1], sel)
+        (N, i1, p1), sel = split(item, 3)
+        acc = Acc([N, i1, p1], sel)
         G = ref.all_g(N)
         Gs, Ps = allp(N)
         if N == 1:
@@ -347,7 +357,7 @@ def fn_k_combine(items):
             C = np.array([[1, 1], [1, 0], [0, 1], [0, 0]])
             rest = [(j,) for j in range(len(Gs))]
         tC, iC = T(C), I(C)
-        for p1 in range(4):
+        if True:
             for idx in rest:
                 gs = np.array([G[i1]] + [Gs[j] for j in idx])
                 ps = np.array([p1] + [Ps[j] for j in idx])
@@ -361,15 +371,18 @@ def fn_k_combine(items):
     return merge_out(outs)
 
 
-def _maps_for(N, tier):
-    """indices into dom.valid_maps(N): all for N=1 / thorough; quick N=2: every table with the all-plus
-    sign pattern and one non-trivial sign pattern that rotates with the table index (all 15 occur)."""
+def _maps_for(N, tier, per=2):
+    """indices into dom.valid_maps(N): all for N=1 / thorough.  quick N=2: every one of the 720 tables
+    with per=1: one sign pattern that rotates with the table index through all 16 patterns;
+    per=2: additionally the all-plus pattern (or the all-minus one where the rotating one is all-plus)."""
     if N == 1 or tier != 'quick':
         return list(range(len(dom.valid_maps(N))))
     ns = 4 ** N
     out = []
     for t in range(len(dom.symplectic_tables(N))):
-        out += [t * ns, t * ns + 1 + (t % (ns - 1))]
+        out.append(t * ns + t % ns)
+        if per == 2:
+            out.append(t * ns + (0 if t % ns else ns - 1))
     return out
 
 
@@ -530,9 +543,14 @@ def fn_k_project(items):
     return merge_out(outs)
 
 
-def _tabs_for(N, tier):
+def _tabs_for(N, tier, per=1):
     """indices into stab.tableaux(N) (map-major, r-minor) for the maps of _maps_for."""
-    return [m * (N + 1) + r for m in _maps_for(N, tier) for r in range(N + 1)]
+    return [m * (N + 1) + r for m in _maps_for(N, tier, per) for r in range(N + 1)]
+
+
+def _rep_tabs(N):
+    """one tableau index per distinct density matrix (7 / 91)."""
+    return sorted(stab.representatives(N, 0))
 
 
 def fn_k_trace(items):
@@ -575,27 +593,35 @@ def fn_k_trace(items):
 
 
 def fn_k_expect(items):
-    """item = [N, tableau index]: stabilizer_expect and vectorizable_stabilizer_expect (torch) against
-    pyclifford stabilizer_expect on the whole group (all 4 phases of the observable)."""
+    """item = [N, tableau index, mode]: stabilizer_expect and vectorizable_stabilizer_expect (torch) against
+    pyclifford stabilizer_expect.  Observables: the whole group with all 4 phases (64 rows at N=2); in
+    mode 'q' the (python-loop, 40 ms) vectorizable kernel gets every string once with a phase that
+    rotates with string and tableau index."""
     tu, pu = TM()['tu'], lib.pu
     outs = []
     for item in items:
-        (N, ti), sel = split(item, 2)
-        acc = Acc([N, ti], sel)
+        (N, ti, mode), sel = split(item, 3)
+        acc = Acc([N, ti, mode], sel)
         gs0, ps0, r0 = stab.tableaux(N)[ti]
         Gs, Ps = allp(N)
+        G = ref.all_g(N)
+        Pq = (np.arange(len(G)) + ti) % 4
 
-        def kd(f, row):
-            if row is None:
-                return 'shape'
-            k = step_kind(gs0, ps0, r0, Gs[row])
-            return ('eigen' if k.startswith('eigen') else 'zero-expectation') + ',' + ('hermitian' if Ps[row] % 2 == 0 else 'phase-odd')
+        def kdf(gsx, psx):
+            def kd(f, row):
+                if row is None:
+                    return 'shape'
+                k = step_kind(gs0, ps0, r0, gsx[row])
+                return ('eigen' if k.startswith('eigen') else 'zero-expectation') + ',' + ('hermitian' if psx[row] % 2 == 0 else 'phase-odd')
+            return kd
         lab = lambda: 'stabilizer_expect(%s, whole group)' % (stab.describe(gs0, ps0, r0),)
-        py = lambda: [('xs', 'g', pu.stabilizer_expect(I(gs0), I(ps0), I(Gs), I(Ps), r0))]
-        acc.run('kernel', 'stabilizer_expect', kd, lab, py,
+        acc.run('kernel', 'stabilizer_expect', kdf(Gs, Ps), lab,
+                lambda: [('xs', 'g', pu.stabilizer_expect(I(gs0), I(ps0), I(Gs), I(Ps), r0))],
                 lambda: [('xs', 'g', tu.stabilizer_expect(T(gs0), T(ps0), T(Gs), T(Ps), r0))])
-        acc.run('kernel', 'vectorizable_stabilizer_expect', kd, lab, py,
-                lambda: [('xs', 'g', tu.vectorizable_stabilizer_expect(T(gs0), T(ps0), T(Gs), T(Ps), r0))])
+        go, po = (Gs, Ps) if mode == 'f' else (G, Pq)
+        acc.run('kernel', 'vectorizable_stabilizer_expect', kdf(go, po), lab,
+                lambda: [('xs', 'g', pu.stabilizer_expect(I(gs0), I(ps0), I(go), I(po), r0))],
+                lambda: [('xs', 'g', tu.vectorizable_stabilizer_expect(T(gs0), T(ps0), T(go), T(po), r0))])
         outs.append(acc.out())
     return merge_out(outs)
 
@@ -643,7 +669,8 @@ def fn_k_z2(items):
     for item in items:
         (fname, nr, nc, lo, hi), sel = split(item, 5)
         acc = Acc([fname, nr, nc, lo, hi], sel)
-        for k, m in _mats(nr, nc, lo, hi):
+        mats = _mats(nr, nc, lo, hi) if fname != 'z2inv_sp' else [(k, dom.symplectic_tables(nr // 2)[k]) for k in range(lo, hi)]
+        for k, m in mats:
             if fname == 'z2rank':
                 rr = int(np.linalg.matrix_rank(m.astype(float)))
                 gr = dom.z2_rank(m)
@@ -758,27 +785,34 @@ def kernel_legs(tier):
     out.append(Leg('k_lists', fn_k_lists, li, chunk=2,
                    bound='ps0, pauli_tokenize: whole group N<=3 in one call and row by row; acq_mat: all pairs (N<=2), triples (N=1), '
                          'whole group; batch_dot: 4 phases of every string x whole group both orders, group x group'))
-    out.append(Leg('k_combine', fn_k_combine, [[N, i] for N in (1, 2) for i in range(4 ** N)], chunk=1,
+    out.append(Leg('k_combine', fn_k_combine, [[N, i, p] for N in (1, 2) for i in range(4 ** N) for p in range(4)], chunk=2,
                    bound='pauli_combine: N=1 all ordered triples of (string,phase) x 8 selections; N=2 all 64x64 ordered pairs x 4 selections'))
-    ti = [[N, m] for N in (1, 2) for m in _maps_for(N, tier)]
+    ti = [[N, m] for N in (1, 2) for m in _maps_for(N, tier, 2)]
     out.append(Leg('k_transform', fn_k_transform, ti, chunk=24, src_states=len(ti),
                    bound='pauli_transform of the whole group (4 phases), map_to_state, state_to_map: N=1 all 24 maps; N=2 %s' % (
-                       'all 720 tables x 2 sign patterns (all-plus and one rotating through the other 15)' if q else 'all 11520 maps')))
+                       'all 720 tables x 2 sign patterns (one rotating through all 16 + all-plus)' if q else 'all 11520 maps')))
     out.append(Leg('k_rotate', fn_k_rotate, [[N, i] for N in Np for i in range(4 ** N)], chunk=4,
                    bound='clifford_rotate (+-generator) and clifford_rotate_signless: all generators x whole group, N<=3'))
     pi = [[N, t, 1] for N in (1, 2) for t in range(len(gs_tabs(N)))]
-    pi += [[2, t, 2] for t in range(len(gs_tabs(2)))]
+    if q:
+        reps = sorted({(t // (3 * 16)) * 3 + t % 3 for t in _rep_tabs(2)})
+        pi += [[2, t, 2] for t in reps]
+    else:
+        pi += [[2, t, 2] for t in range(len(gs_tabs(2)))]
     out.append(Leg('k_project', fn_k_project, pi, chunk=16, src_states=len(gs_tabs(1)) + len(gs_tabs(2)),
-                   bound='stabilizer_project: all (table, r) tableaux N<=2 (phases are not read) x every single string; N=2 x all 90 ordered '
-                         'independent commuting pairs'))
+                   bound='stabilizer_project: all (table, r) tableaux N<=2 (phases are not read: complete) x every single string; all 90 ordered '
+                         'independent commuting pairs on %s' % ('the tableaux of one representative per density matrix' if q else 'all N=2 tableaux')))
     tr = [[N, t, 1] for N in (1, 2) for t in _tabs_for(N, tier)]
-    tr += [[2, t, 2] for t in _tabs_for(2, 'quick')]
+    tr += [[2, t, 2] for t in (_rep_tabs(2) if q else _tabs_for(2, 'quick'))]
     out.append(Leg('k_trace', fn_k_trace, tr, chunk=16, src_states=len(tr), timeout=3000,
                    bound='stabilizer_projection_trace: N=1 all 48 tableaux, N=2 %s x all signed Hermitian observables; ordered commuting '
-                         'pairs (2 sign patterns) on the quick tableau set' % ('tableaux of 720 tables x 2 sign patterns x 3 ranks' if q else 'all 34560 tableaux')))
-    ex = [[N, t] for N in (1, 2) for t in _tabs_for(N, tier)]
+                         'pairs (signs ++ and -+) on %s' % (
+                             ('720 tables x 1 sign pattern (rotating through all 16) x 3 ranks', 'one tableau per density matrix (91)') if q else
+                             ('all 34560 tableaux', '720 tables x 1 rotating sign pattern x 3 ranks'))))
+    ex = [[N, t, 'q' if (q and N == 2) else 'f'] for N in (1, 2) for t in _tabs_for(N, tier)]
     out.append(Leg('k_expect', fn_k_expect, ex, chunk=16, src_states=len(ex), timeout=3000,
-                   bound='stabilizer_expect, vectorizable_stabilizer_expect: same tableau set x whole group with all 4 observable phases'))
+                   bound='stabilizer_expect (whole group, all 4 observable phases) and vectorizable_stabilizer_expect (%s): same tableau set as k_trace' % (
+                       'every string once, phase rotating with string and tableau index' if q else 'whole group, all 4 phases')))
     en = []
     for N in ((1, 2) if q else (1, 2, 3)):
         tot = len(_stab_lists(N))
@@ -790,11 +824,13 @@ def kernel_legs(tier):
     for nr, nc in shapes:
         tot = 2 ** (nr * nc)
         zi += [['z2rank', nr, nc, lo, min(lo + 512, tot)] for lo in range(0, tot, 512)]
-    for n in (1, 2, 3, 4):
+    for n in ((1, 2, 3) if q else (1, 2, 3, 4)):
         tot = 2 ** (n * n)
         zi += [['z2inv', n, n, lo, min(lo + 4096, tot)] for lo in range(0, tot, 4096)]
+    zi += [['z2inv_sp', 4, 4, lo, lo + 90] for lo in range(0, 720, 90)] + [['z2inv_sp', 2, 2, 0, 6]]
     out.append(Leg('k_z2', fn_k_z2, zi, chunk=1,
-                   bound='z2rank: all binary matrices of shapes %s; z2inv: all square binary matrices up to 4x4 (singular ones must raise in both)' % (shapes,)))
+                   bound='z2rank: all binary matrices of shapes %s; z2inv: all square binary matrices up to %s (singular ones raise in both), '
+                         'all 6 + 720 symplectic tables' % (shapes, '3x3' if q else '4x4')))
     mi = [[f, N] for f in ('front', 'condense', 'pauli_is_onsite', 'pauli_diagonalize1', 'mask') for N in (1, 2, 3)]
     mi += [['pauli_diagonalize2', N] for N in (1, 2, 3)]
     mi += [['binary_repr', 4], ['aggregate', 4]]
